@@ -89,8 +89,8 @@ def _chunk_worker(args):
             out["harness"].append((index, tb))
             continue
         m.update(res["digest"].encode())
-        if len(out["digests"]) < 8:
-            out["digests"].append((index, res["digest"]))
+        if len(out["digests"]) < 5:
+            out["digests"].append((index, res["digest"] + ("!" + res["violation"]["kind"] if res["violation"] else "")))
         if res.get("nts"):
             out["nt"].extend(res["nts"])
         elif res["nt"] is not None:
@@ -259,7 +259,7 @@ def run_check(pid: str, tier: str, root_seed: int, workers=None, budget_override
     chunks = [(pid, root_seed, tier, first, min(chunk, runs - first), timeout_s, 2 if first < chunk * 4 else 0)
               for first in range(0, runs, chunk)]
     agg = {"n": 0, "nt": set(), "counters": {}, "sim_s": 0.0, "violations": [], "samples": [], "ood": 0,
-           "aborted_other": 0, "harness": [], "chunk_digests": {}}
+           "aborted_other": 0, "harness": [], "chunk_digests": {}, "digests": {}}
     budget_exhausted = False
     stopped_early = False
     pool_error = None
@@ -296,6 +296,7 @@ def run_check(pid: str, tier: str, root_seed: int, workers=None, budget_override
                     agg["harness"].extend(out["harness"])
                     agg["samples"].extend(out["samples"])
                     agg["chunk_digests"][out["first"]] = out["chunk_digest"]
+                    agg["digests"][out["first"]] = out["digests"]
                     if any(match_finding(findings, pid, v) is None for _, v, _ in out["violations"]):
                         # an unlisted violation: no point in exploring further, stop everybody
                         _STOP.set()
@@ -368,6 +369,35 @@ def run_check(pid: str, tier: str, root_seed: int, workers=None, budget_override
         if pool_error:
             core.out(f"HARNESS-ERROR property={pid} pool: {pool_error}")
 
+    # ------------------------------------------------------------------ determinism probe
+    # a few runs of this very batch again, in a FRESH interpreter under another hash seed: same event-log digests
+    det = {"checked": 0, "diverged": []}
+    n_probe = getattr(check, "DETERMINISM_PROBE_RUNS", 5)
+    if n_probe and agg["digests"] and exit_code == 0 and not os.environ.get("GSIM_NO_PROBE"):
+        firsts = sorted(agg["digests"])
+        first = firsts[len(firsts) // 2]
+        mine = dict(agg["digests"][first][:n_probe])
+        if mine:
+            try:
+                env = dict(os.environ, GSIM_HASHSEED="12345", VERIF_WORKERS="2", VERIF_SEED=str(root_seed))
+                lo, hi = min(mine), max(mine)
+                p = subprocess.run([os.path.join(core.VERIF, "check"), "selftest", "digests", pid, tier, str(lo),
+                                    str(hi - lo + 1)], capture_output=True, text=True, env=env, timeout=900)
+                line = [ln for ln in p.stdout.splitlines() if ln.startswith("{")][-1]
+                theirs = {int(k): v for k, v in json.loads(line).items()}
+                for i, dg in mine.items():
+                    det["checked"] += 1
+                    if theirs.get(i) != dg:
+                        det["diverged"].append((i, dg, theirs.get(i)))
+            except Exception as e:
+                det["error"] = repr(e)[:300]
+        if det["diverged"] or det.get("error"):
+            exit_code = 2
+            core.out(f"HARNESS-ERROR property={pid} determinism probe: {det}")
+        else:
+            say(f"[{pid}] determinism probe: {det['checked']} runs re-executed in a fresh interpreter under "
+                f"PYTHONHASHSEED=12345: identical digests")
+
     # ------------------------------------------------------------------ evidence
     wall = time.time() - t0
     m = hashlib.sha256()
@@ -400,6 +430,7 @@ def run_check(pid: str, tier: str, root_seed: int, workers=None, budget_override
             "out_of_domain": agg["ood"], "aborted_other": agg["aborted_other"],
             "harness_errors": len(agg["harness"]),
             "batch_digest": m.hexdigest()[:24],
+            "determinism_probe": det,
             "components": check.COMPONENTS,
             "known_findings_printed": known_lines,
             "violations_reported": reported,
